@@ -23,6 +23,29 @@ TRUSTED_BASE = [
 
 
 # ------------------------------------------------------------------ protocol
+class ObjPool:
+    """reader / writer objects that live as long as a check: `get(cls, reuse, **opts)` hands back the pooled object for
+    (class, options) when `reuse` is true and a fresh one otherwise.  A property that holds for a fresh object must hold
+    for one that has already been used (C09 / C10), so every harness alternates between the two."""
+    def __init__(self):
+        self._objs = {}
+        self.n = 0
+
+    def get(self, cls, reuse=None, **opts):
+        self.n += 1
+        if reuse is None:
+            reuse = self.n % 2 == 0
+        if not reuse:
+            return cls(**opts)
+        key = (cls.__module__, cls.__name__, json.dumps(opts, sort_keys=True, default=str))
+        if key not in self._objs:
+            self._objs[key] = cls(**opts)
+        return self._objs[key]
+
+
+POOL = ObjPool()
+
+
 def enc(s):
     if s == "":
         return "_"
@@ -254,6 +277,28 @@ class Check:
             self.nontrivial.add(key if isinstance(key, (str, int, tuple)) else repr(key))
         if sample is not None and len(self.samples) < 6:
             self.samples.append(sample)
+
+    def remember(self, label, thunk, result, every=7, cap=400):
+        """keep every `every`-th evaluation (label, thunk, repr of its result) for `recheck()`"""
+        self._rem_n = getattr(self, "_rem_n", 0) + 1
+        if not hasattr(self, "_remembered"):
+            self._remembered = []
+        if self._rem_n % every == 0 and len(self._remembered) < cap:
+            self._remembered.append((label, thunk, repr(result)))
+
+    def recheck(self, what):
+        """evaluate the remembered calls once more, in reverse order: a function of its arguments gives the same result
+        again, whatever was computed in between (nothing may be kept at class or module level)"""
+        for label, thunk, first in reversed(getattr(self, "_remembered", [])):
+            try:
+                again = repr(thunk())
+            except Exception as e:      # the harness's own thunk failed
+                again = "raised " + type(e).__name__
+            self.count("rechecked")
+            if again != first:
+                self.property_failure({"call": str(label)[:1500], "first_result": first[:1500], "second_result": again[:1500]},
+                                      "%s: the same call gave a different result when repeated later in the same process" % what)
+        self._remembered = []
 
     def property_failure(self, case, what):
         """implementation disagrees with the specification on a well-formed input"""
